@@ -8,7 +8,7 @@ RULE = ("(i) the real WriteOrThrow / PartialRead / ReadOrEOF / ReadOrThrow in-pr
         "script of length <= 5 (quick: 4) over {full, 1 byte, n-1 bytes, EINTR} plus hard errors, for several data lengths; result AND "
         "the sequence of request sizes issued must equal the Lean model's; (ii) every executable with a standard invocation under an "
         "LD_PRELOAD shim that returns random short counts (five profiles, from occasionally short to every transfer 1 byte) and EINTR from read/write on all descriptors (stdin, stdout, shard files, "
-        "child pipes), on the standard corpus and on its CRLF variant: stdout, output files and exit status must equal the fault-free run; runs in which no fault fired are not "
+        "child pipes), on the standard corpus, on its CRLF variant and (for five tools) on gzip (two members) / bzip2 / xz compressed stdin: stdout, output files and exit status must equal the fault-free run; runs in which no fault fired are not "
         "counted; non-trivial = distinct (tool, seed) with >= 1 fault fired, or distinct script")
 ASSUMPTIONS = ["iostream-based tools (mmhsum, process_unicode, gigaword_unwrap, order_independent_hash output) rely on libstdc++'s own "
                "retry loops, exercised but not modelled", "input-side schedule independence of records is C02's theorem"]
@@ -64,6 +64,16 @@ def run(ctx):
     # the same corpus with CRLF line ends (a boundary between the CR and the LF is its own case in ReadLine)
     invs += [(label + "-crlf", tool, args, stdin.replace(b"\r\n", b"\n").replace(b"\n", b"\r\n"), outs)
              for (label, tool, args, stdin, outs) in invs if not label.startswith("warc_parallel")]
+    # compressed stdin (the magic-number probe and the decompressors' refills go through the same retry loops);
+    # two-member gzip so that a member boundary is crossed as well
+    import gzip as _gz, bz2 as _bz2, lzma as _lzma
+    base = {label: (tool, args, stdin, outs) for (label, tool, args, stdin, outs) in invs}
+    for label in ("dedupe", "remove_long_lines", "cache", "shard", "warc_parallel"):
+        tool, args, stdin, outs = base[label]
+        half = len(stdin) // 2
+        invs.append((label + "-gz", tool, args, _gz.compress(stdin[:half]) + _gz.compress(stdin[half:]), outs))
+        invs.append((label + "-bz2", tool, args, _bz2.compress(stdin), outs))
+        invs.append((label + "-xz", tool, args, _lzma.compress(stdin), outs))
     for (label, tool, args, stdin, outs) in invs:
         for f in outs:
             if os.path.exists(f):
